@@ -434,6 +434,11 @@ Corrupted events (checks/c12.py campaign(corrupt=...), fixed probes J1/J4/J7):
 JavaRouteWitness/JavaRouteWitness2.cfg: an accepted closed campaign and a rejection are reachable in the monitor model
 (checked in every run; otherwise exit 2).
 
+Thorough tier (2026-10-04, machine shared with ten other builders, load average 100-200): 500 generated programs + 14 probes, 444
+family members x {interp, java} x {1,3,9} = 2664 runs + 66 corpus runs, 4.76 M TLC states, 29 min; first run found, besides the
+entries above, the emerge defect (optimiser, both routes), the parentheses defect inside generated programs, and a renderer slip of
+mine (0^0: libaldor's `^` returns its base when the base is 0; now spelled out by gen/render.py); second run exit 0.
+
 Admission of features to the libaldor dialect (interpreter route against AldorSem on the unchanged tree, before Java was looked at):
 seeds 1, 3, 7 (~400 programs) with bi, str, fun, while, for, exit, list, rec, clos, brk, rec_fun, halt: no disagreement other than the
 -Q9 inliner hang (known from C02/C03) and the front-end rejection F2; seeds 5, 6, 8 with throw.  Not admitted: arr (libaldor arrays
